@@ -313,7 +313,14 @@ def work_process(job: Tuple[str, str]) -> Dict[str, Any]:
         if not isinstance(ref, dict):
             res["inconclusive"].append(f"{res['case']}: reference run failed: {ref}")
             return res
+        # the same files once more under a directory whose name contains a dot
+        dotted = sc.path("proj.v2", "schemas")
+        os.makedirs(dotted)
+        for fn, text in files.items():
+            open(os.path.join(dotted, fn), "w").write(text)
         variants = [(f"seed{s}", s, src, main, True) for s in ("1", "2", "3", "7", "12345", "4294967295")]
+        variants += [("dot-slash", "0", src, "./" + main, True), ("dotted-dir-rel", "0", sc.dir, os.path.join("proj.v2", "schemas", main), True), ("dotted-dir-abs", "0", src, os.path.join(dotted, main), True),
+                     ("dotdot", "0", sc.path("out_ref"), os.path.join("..", "src", main), True)]
         variants += [("abs-path", "0", src, os.path.join(src, main), True), ("cwd-root", "0", "/", os.path.join(src, main), True), ("cwd-parent-rel", "0", sc.dir, os.path.join("src", main), True),
                      ("lint-on", "0", src, main, False), ("lint-on-seed5", "5", src, main, False)]
         for tag, s, cwd, path, quiet in variants:
@@ -329,7 +336,48 @@ def work_process(job: Tuple[str, str]) -> Dict[str, Any]:
                 break
         else:
             res["samples"].append({"case": res["case"], "runs_identical": len(variants) + 1, "files": sorted(ref)})
+        # one long-lived process that changes directory between compilations of DIFFERENT projects that use the same relative
+        # file names: every compilation must give what a fresh process gives for that project
+        other = sc.path("other")
+        os.makedirs(other)
+        for fn, text in files.items():
+            open(os.path.join(other, fn), "w").write(text.replace("int20", "int21").replace("uint7 percent", "uint6 percent").replace("WHEELS = 2 * 2", "WHEELS = 3"))
+        ref_other = run_one("ref_other", "0", other, main, True)
+        hist = subprocess.run([VENV_PY, "-c", CHDIR_HISTORY, os.path.join(REPO, "compiler"), lang, main, src, other, sc.path("hist")], capture_output=True, text=True, timeout=300,
+                              env={"PYTHONHASHSEED": "0", "PATH": os.environ.get("PATH", "")})
+        res["obligations"] += 1
+        if hist.returncode != 0 or not isinstance(ref_other, dict):
+            res["inconclusive"].append(f"{res['case']}: in-process chdir history failed: {hist.stderr[-200:]}")
+        else:
+            import json as _json
+
+            got = _json.loads(hist.stdout)
+            for step, want in (("0", ref), ("1", ref_other), ("2", ref)):
+                diff = sorted(f for f in set(want) | set(got[step]) if want.get(f) != got[step].get(f))
+                if diff:
+                    res["violations"].append({"what": f"{res['case']}: one process compiles project A, changes directory, compiles project B (same relative file names), changes back and compiles A again: compilation #{int(step) + 1} differs from what a fresh process writes: {diff[:3]}",
+                                              "payload": {"kind": "process", "files": files, "main": main, "lang": lang, "variant": "chdir-history"}, "confirmed": True, "info": {"kind": "process", "key": "process:chdir-history"}})
+                    break
     return res
+
+
+CHDIR_HISTORY = r'''
+import sys, os, json, hashlib, contextlib, io
+sys.path.insert(0, sys.argv[1])
+from bitproto._main import main as bp_main
+lang, main, a, b, out = sys.argv[2:7]
+res = {}
+for i, d in enumerate((a, b, a)):
+    os.chdir(d)
+    o = os.path.join(out, str(i)); os.makedirs(o)
+    for fn in sorted(os.listdir(d)):
+        if fn.endswith(".bitproto"):
+            with contextlib.redirect_stderr(io.StringIO()):
+                bp_main(fn, lang=lang, outdir=o, disable_linter=True)
+    res[str(i)] = {f: hashlib.sha256(open(os.path.join(o, f), "rb").read()).hexdigest() for f in sorted(os.listdir(o))}
+print(json.dumps(res))
+'''
+
 
 
 def main() -> int:
